@@ -26,13 +26,28 @@ class _Timed:
             return self.on_timeout(job, self.seconds)
 
 
-def pmap(fn, items, repo_root, workers=16, chunksize=None, job_timeout=None, on_timeout=None):
+class _SkipGuard:
+    """Picklable wrapper: a job that is skipped because the timeout cap of this map was reached yields skip_result
+    (an empty result: skipped jobs are neither failures nor evaluations)."""
+    def __init__(self, fn, skip_result):
+        self.fn, self.skip_result = fn, skip_result
+
+    def __call__(self, job):
+        try:
+            return self.fn(job)
+        except JobSkipped:
+            return self.skip_result
+
+
+def pmap(fn, items, repo_root, workers=16, chunksize=None, job_timeout=None, on_timeout=None, skip_result=()):
     """job_timeout / on_timeout: every job runs under its own alarm, so a hang of the code under check ends as a reported
-    failure of that job (never as a check that has to be killed)."""
+    failure of that job (never as a check that has to be killed).  After TIMEOUT_CAP counted timeouts the remaining jobs of
+    this map are skipped (skip_result; default: an empty list of failures)."""
     if not items:
         return []
     if job_timeout is not None:
         fn = _Timed(fn, job_timeout, on_timeout)
+    fn = _SkipGuard(fn, list(skip_result) if skip_result == () else skip_result)
     workers = min(workers, len(items))
     ctx = mp.get_context('fork')
     global _timeouts
@@ -61,22 +76,29 @@ class JobTimeout(BaseException):
     pass
 
 
+class JobSkipped(BaseException):
+    pass
+
+
 # Once this many jobs of one map have hit their alarm, the remaining jobs give up at once (the non-termination is already
 # established; without the cap a change that makes EVERY job hang would cost jobs x budget).
 TIMEOUT_CAP = 6
 _timeouts = None
 
 
-def with_timeout(fn, arg, seconds):
-    """Run fn(arg) under a wall-clock alarm (worker processes only); raises JobTimeout."""
+def with_timeout(fn, arg, seconds, count=True):
+    """Run fn(arg) under a wall-clock alarm (worker processes only); raises JobTimeout.  count=False: an expected
+    timeout (an input of a listed finding) that must not use up the cap of the map."""
     import signal
     if _timeouts is not None and _timeouts.value >= TIMEOUT_CAP:
-        raise JobTimeout('skipped: timeout cap reached')
+        raise JobSkipped()
+    fired = []
 
     def handler(signum, frame):
-        if _timeouts is not None:
+        if count and not fired and _timeouts is not None:
             with _timeouts.get_lock():
                 _timeouts.value += 1
+        fired.append(1)
         raise JobTimeout()
     old = signal.signal(signal.SIGALRM, handler)
     signal.setitimer(signal.ITIMER_REAL, seconds, 1.0)     # re-fires every second in case it is swallowed
